@@ -1799,7 +1799,10 @@ class Frame(ContainerOperand):
                 index_constructor=index_constructor,
                 **kwargs)
 
-        index_constructor = partial(IndexHierarchy.from_labels, name=index_name)
+        # if there are no rows, depth cannot be discovered from the labels
+        index_constructor = partial(IndexHierarchy.from_labels,
+                name=index_name,
+                depth_reference=index_depth)
         return cls(
                 index=zip(*index_arrays),
                 index_constructor=index_constructor,
